@@ -48,6 +48,11 @@ class List(Expression):
         staging = out.var('staging', [])
 
         with out.WHILE(True):
+            # A max_len that is only known at parse time may be zero.
+            if self.max_len is not None and not str(self.max_len).isdigit():
+                with out.IF(LEN(staging) >= Code(self.max_len)):
+                    out += BREAK
+
             if self.expr.can_partially_succeed():
                 checkpoint = out.var('checkpoint', POS)
 
